@@ -63,6 +63,22 @@ pub fn family(kind: &str, d: usize) -> (Vec<(String, String)>, String, Result<St
             // succeed or end in ExceedRecursiveLimit (the property only fixes the behaviour up to the limit and for cycles)
             (files, "x0.svh".into(), if d <= 64 { Ok("*leaf*".into()) } else { Err("?".into()) })
         }
+        // two-dimensional legal chains: `dd` plain include levels, then in the deepest file `m` nested macro usages, both within the limit (d = dd*100 + m):
+        //   grid-text: the innermost macro is text;  grid-name: the macro chain yields the file name of `include `P0;
+        //   grid-body: the innermost macro body is an `include directive. Each counter must count its own kind of nesting only.
+        "grid-text" | "grid-name" | "grid-body" => {
+            let (dd, m) = (d / 100, d % 100);
+            let mut files = vec![];
+            for k in 0..dd { files.push((format!("g{}.svh", k), format!("`include \"g{}.svh\"\n", k + 1))); }
+            let mut s = String::new();
+            let last = match kind { "grid-text" => "leaf".to_string(), "grid-name" => "\"gleaf.svh\"".to_string(), _ => "`include \"gleaf.svh\"".to_string() };
+            for k in 0..m { if k + 1 < m { s.push_str(&format!("`define P{} `P{}\n", k, k + 1)); } else { s.push_str(&format!("`define P{} {}\n", k, last)); } }
+            s.push_str(if kind == "grid-name" { "`include `P0\n" } else { "`P0\n" });
+            files.push((format!("g{}.svh", dd), s));
+            files.push(("gleaf.svh".into(), "leaf\n".into()));
+            let levels = dd + if kind == "grid-text" { 0 } else { 1 };
+            (files, "g0.svh".into(), if levels <= 64 && m <= 64 { Ok("*leaf*".into()) } else { Err("?".into()) })
+        }
         _ => panic!("family"),
     }
 }
@@ -108,7 +124,10 @@ pub fn main(args: &[String]) {
     for d in 1..=6 { jobs.push(("include-cycle".into(), d)); jobs.push(("macro-cycle".into(), d)); }
     jobs.push(("macro-include-cycle".into(), 1));
     for d in [2usize, 3, 8, 30, 60] { jobs.push(("kmacro-include-cycle".into(), d)); }
-    let mut rep = Report::new("schematic families run each in a child process with a 1 GiB stack: include chains / macro chains / alternating macro-include chains of depth d (all depths 1..140 in the thorough tier), include cycles and macro cycles of length 1..6, a macro that expands to an include of a file that uses the macro; expected: fully expanded text up to 64 levels, ExceedRecursiveLimit (wrapped in Include once per include level) beyond; non-trivial = every member; distinct by (family, depth)");
+    for (dd, m) in [(63usize, 3usize), (40, 26), (60, 10), (10, 60), (1, 63), (32, 33), (62, 64), (5, 5)] {
+        for k in ["grid-text", "grid-name", "grid-body"] { jobs.push((k.into(), dd * 100 + m)); }
+    }
+    let mut rep = Report::new("schematic families run each in a child process with a 1 GiB stack: include chains / macro chains / alternating macro-include chains of depth d (all depths 1..140 in the thorough tier), include cycles and macro cycles of length 1..6, a macro that expands to an include of a file that uses the macro, two-dimensional legal chains (dd include levels, then m nested macro usages ending in text / in the file name of an `include `MACRO / in an `include directive); expected: fully expanded text up to 64 levels, ExceedRecursiveLimit (wrapped in Include once per include level) beyond; non-trivial = every member; distinct by (family, depth)");
     let jobs = std::sync::Arc::new(jobs);
     let j2 = jobs.clone(); let exe2 = exe.clone(); let root2 = root.clone();
     let results = crate::util::par_map(jobs.len(), 16, move |i| {
